@@ -115,8 +115,13 @@ def config(tier, seed):
         nosync = [p for p in ap if 7 not in p]
         # the pair run takes one pool (rotating with the seed) and two pairs
         pairs = [nosync[(seed * 7 + 3) % len(nosync)], nosync[(seed * 11 + 8) % len(nosync)]]
+        pools = "{%d}" % (seed % 3)
+        if os.environ.get("VSD_PAIRS"):      # self-tests: "4-7,2-4" [@pools, e.g. "@{1,2}"]
+            spec = os.environ["VSD_PAIRS"].split("@")
+            pairs = [tuple(sorted(int(x) for x in p.split("-"))) for p in spec[0].split(",")]
+            pools = spec[1] if len(spec) > 1 else "{0,1,2}"
         return dict(runs=[dict(Pools="{0,1,2}", MaxAct=1, LateBegin=True, pairs=[], Dialing=True),
-                          dict(Pools="{%d}" % (seed % 3), MaxAct=2, LateBegin=False, pairs=pairs)],
+                          dict(Pools=pools, MaxAct=2, LateBegin=False, pairs=pairs)],
                     live=dict(Pools="{0,1,2}", MaxAct=1, LateBegin=True, pairs=ap),
                     moments=[0, 1], per_key=2, bound=BOUND)
     nosync = [p for p in ap if 7 not in p]
